@@ -819,3 +819,116 @@ RULES = {
     "GROEBNER": Rule("F-groebner", rule_groebner, 2, "groebner() eliminates exactly the symbols that are filtered afterwards: they form the generator prefix under lex order", mut_groebner),
     "CFMGF": Rule("A4-cf-mgf", rule_cf_mgf, 8, "cf(t) == mgf(i t) for every family that defines both (exact rational-function comparison over Q[i])", mut_cf_mgf),
 }
+
+
+# ------------------------------------------------------------------ C16: rational case (pairwise-coprime shortcut, integer kernel)
+def rule_rational_lattice(repo: Repo) -> List[Ob]:
+    obs = []
+    # (a) the shortcut "no relation at all" needs *pairwise* coprime numerators/denominators
+    f = repo.function("utils/expressions.py", "are_coprime")
+    gcds = [c for c in walk_no_nested(f.node) if isinstance(c, ast.Call) and call_name(c) == "gcd"]
+    ok = bool(gcds)
+    why = "no gcd call"
+    for g in gcds:
+        if len(g.args) != 2 or any(isinstance(a, ast.Starred) for a in g.args):
+            ok = False
+            why = f"`{src(g)}` is not a gcd of one *pair*: numbers that are coprime as a set (2, 6, 3) can still be multiplicatively related"
+    if ok:
+        loops = [n for n in walk_no_nested(f.node) if isinstance(n, ast.For)]
+        pairs = False
+        if len(loops) >= 2:
+            outer, inner = loops[0], loops[1]
+            pairs = isinstance(outer.target, ast.Name) and isinstance(inner.iter, ast.Call) and call_name(inner.iter) == "range" and len(inner.iter.args) == 2 \
+                and src(inner.iter.args[0]) in (f"{outer.target.id} + 1", f"1 + {outer.target.id}") and src(outer.iter).startswith("range(len(")
+            a, b = gcds[0].args
+            pairs = pairs and isinstance(inner.target, ast.Name) and {src(a.slice) if isinstance(a, ast.Subscript) else "?", src(b.slice) if isinstance(b, ast.Subscript) else "?"} == {outer.target.id, inner.target.id}
+        if not pairs:
+            pairs = any(isinstance(c, ast.Call) and call_name(c) == "combinations" and len(c.args) == 2 and src(c.args[1]) == "2" for c in walk_no_nested(f.node))
+        ok = pairs
+        why = "every pair i < j is tested with gcd(a_i, a_j) == 1" if ok else "the gcd test does not range over all pairs i < j"
+    obs.append(Ob("F-rational-lattice", "utils/expressions.py::are_coprime::pairwise", f.relpath, f.node.lineno, f.qualname, ok, why if not ok or True else ""))
+    # (b) the integer kernel is computed with integral, unimodular row operations
+    cls = repo.cls("ExponentLattice", "invariants/exponent_lattice.py")
+    rat = cls.methods.get("compute_basis_rational")
+    if rat is None:
+        raise AnalysisError("compute_basis_rational not found")
+    helpers = [cls.find_method(n.attr) for n in walk_no_nested(rat.node) if isinstance(n, ast.Attribute) and isinstance(n.value, ast.Name) and n.value.id in ("self", "cls", cls.name)]
+    helpers = [h for h in helpers if h is not None and h.node is not rat.node]
+    fns = [rat] + helpers
+    for g in fns:
+        divs = [n for n in walk_no_nested(g.node) if isinstance(n, ast.BinOp) and isinstance(n.op, ast.Div)]
+        casts = [n for n in walk_no_nested(g.node) if isinstance(n, ast.Call) and call_name(n) == "astype"]
+        ok = not divs and not casts
+        obs.append(Ob("F-rational-lattice", f"{g.relpath}::{g.qualname}::integral", g.relpath, (divs or casts or [g.node])[0].lineno, g.qualname, ok,
+                      "exponent vectors are computed with integer arithmetic only (no true division, no truncating array cast)" if ok else
+                      f"`{src((divs or casts)[0])[:60]}` leaves the integers on the way to the exponent vectors"))
+    # (c) elimination scans start at the pivot counter
+    for g in helpers:
+        incs = [n for n in walk_no_nested(g.node) if isinstance(n, ast.AugAssign) and isinstance(n.op, ast.Add) and isinstance(n.target, ast.Name) and src(n.value) == "1"]
+        col_loops = [n for n in walk_no_nested(g.node) if isinstance(n, ast.For) and any(i is x for i in incs for x in ast.walk(n))]
+        if not incs or not col_loops:
+            continue
+        piv = incs[0].target.id
+        loop = col_loops[0]
+        scans = [c for c in ast.walk(loop) if isinstance(c, ast.comprehension) and isinstance(c.iter, ast.Call) and call_name(c.iter) == "range" and len(c.iter.args) == 2]
+        bad = [s for s in scans if src(s.iter.args[0]) != piv]
+        ok = bool(scans) and not bad
+        obs.append(Ob("F-rational-lattice", f"{g.relpath}::{g.qualname}::pivot-scan", g.relpath, (bad or scans or [loop])[0].iter.lineno if (bad or scans) else loop.lineno, g.qualname, ok,
+                      f"row scans of the elimination start at the pivot counter `{piv}` (rows above it are finished pivots)" if ok else
+                      f"a row scan starts at `{src(bad[0].iter.args[0]) if bad else '?'}` instead of the pivot counter `{piv}`: when an equation is dependent the counter lags behind the column index and rows are skipped"))
+        # kernel = the rows below the last pivot, right block
+        rets = [r.value for r in walk_no_nested(g.node) if isinstance(r, ast.Return)]
+        defs = Defs(g.node, None)
+        okk = False
+        for r in rets:
+            e = r
+            if isinstance(e, ast.Name) and len(defs.defs.get(e.id, [])) == 1:
+                e = defs.defs[e.id][0]
+            if isinstance(e, ast.ListComp):
+                it = e.generators[0].iter
+                okk = isinstance(it, ast.Subscript) and isinstance(it.slice, ast.Slice) and it.slice.lower is not None and src(it.slice.lower) == piv and it.slice.upper is None
+        obs.append(Ob("F-rational-lattice", f"{g.relpath}::{g.qualname}::kernel-rows", g.relpath, g.node.lineno, g.qualname, okk,
+                      f"the kernel basis is read off the rows from `{piv}` on (those whose equation block vanished)" if okk else "the kernel rows are not `rows[pivot counter:]`"))
+    return obs
+
+
+def mut_rational_lattice(repo: Repo) -> List[Mutant]:
+    out = []
+
+    def setwise(tree):
+        fn = find_def(tree, "are_coprime")
+        fn.body = fn.body[:1] + ast.parse("return len(integers) < 2 or math.gcd(*integers) == 1").body
+        return True
+    ov = mutate_module(repo, "utils/expressions.py", setwise)
+    if ov:
+        out.append(Mutant("setwise-gcd", ov, "fire", "are_coprime::pairwise", control=True))
+
+    def stale_index(tree):
+        fn = find_def(tree, "ExponentLattice._integer_kernel")
+        if fn is None:
+            return False
+        for c in ast.walk(fn):
+            if isinstance(c, ast.comprehension) and isinstance(c.iter, ast.Call) and call_name(c.iter) == "range" and len(c.iter.args) == 2 and src(c.iter.args[0]) == "pivot_row":
+                c.iter.args[0] = ast.Name(id="col", ctx=ast.Load())
+                return True
+        return False
+    ov = mutate_module(repo, "invariants/exponent_lattice.py", stale_index)
+    if ov:
+        out.append(Mutant("scan-from-column-index", ov, "fire", "pivot-scan"))
+
+    def truediv(tree):
+        fn = find_def(tree, "ExponentLattice._integer_kernel")
+        if fn is None:
+            return False
+        for n in ast.walk(fn):
+            if isinstance(n, ast.BinOp) and isinstance(n.op, ast.FloorDiv):
+                n.op = ast.Div()
+                return True
+        return False
+    ov = mutate_module(repo, "invariants/exponent_lattice.py", truediv)
+    if ov:
+        out.append(Mutant("true-division-in-kernel", ov, "fire", "integral"))
+    return out
+
+
+RULES["RATLATTICE"] = Rule("F-rational-lattice", rule_rational_lattice, 3, "rational exponent lattice: the no-relation shortcut needs pairwise coprimality; the kernel is computed by integral row operations scanning from the pivot counter", mut_rational_lattice)
